@@ -44,6 +44,8 @@ def main(tier, replay=None):
     camp.run([], [["reset", "heapviews"]], "heap-views-hold-inputs", sample=False)
     # copy() of an object whose own Assign allocates managed objects: the half-built copy already protects what it holds
     camp.run([], [["reset", "deepcopy %d" % m] for m in (60, 300)], "allocating-assign", sample=False)
+    # an Array doubled onto itself whose elements allocate when assigned: collections in the middle of the call
+    camp.run([], [["reset", "selfcat %d" % m] for m in (40, 300, 1500)], "self-concat-allocating-elements", sample=False)
     # the only reference lives in a callee-saved register (the roots include the registers, not just the stack)
     camp.run([], [["reset", "reghold"]], "register-root", sample=False)
     # a heap Tuple filled (concat, constructor, assign) from a Map whose function allocates: collections in the middle of the fill
